@@ -231,6 +231,22 @@ def contract_monitor(args, phase, state):
     ex.process_metadata = w
 
 
+def double_apply_worker(args):
+    """A client that transforms the query twice on one executor (e.g. once to normalise / hash it, once to translate)
+    and then writes: every injected line must still land exactly once."""
+    from ..xlate import exc_info, executor_for, parse_query
+    out = Path(args["out"])
+    out.mkdir(parents=True, exist_ok=True)
+    try:
+        exe = executor_for(args["backend"])
+        exe.apply_ast_transformations(parse_query(args["query"]))
+        a = exe.apply_ast_transformations(parse_query(args["query"]))
+        exe.write_cpp_files(a, out)
+        return {"status": "ok", "monitor": {}}
+    except BaseException as e:  # noqa: B036
+        return {"status": "raised", "exc": exc_info(e), "monitor": {}}
+
+
 def run(ctx: Ctx) -> int:
     n = ctx.pick(1200, 12000)
     cases = []
@@ -245,6 +261,11 @@ def run(ctx: Ctx) -> int:
             cases.append((backend, blocks, exp))
     reqs = [{"args": {"backend": b, "query": make_query(b, blocks), "out": str(ctx.scratch / f"p{i}"), "monitors": ["vf.props.c14:contract_monitor"]}}
             for i, (b, blocks, exp) in enumerate(cases)]
+    # every 12th case is driven through "transform twice, then write" on one executor
+    for i, rq in enumerate(reqs):
+        if i % 12 == 5 and not ctx.replay:
+            rq["fn"] = "vf.props.c14:double_apply_worker"
+            cases[i][2]["double_apply"] = True
     res = run_batch(reqs, ctx.scratch)
     compile_sample = []
     for i, ((backend, blocks, exp), r) in enumerate(zip(cases, res)):
@@ -255,6 +276,8 @@ def run(ctx: Ctx) -> int:
             ctx.notes.append(str(r)[:200])
             continue
         ctx.count("process_metadata_contract_evals", r.get("monitor", {}).get("process_metadata_evals", 0))
+        if exp.get("double_apply"):
+            ctx.count("double_apply_cases")
         if r.get("monitor", {}).get("contract_fail"):
             ctx.violation(case, "contract on process_metadata: " + r["monitor"]["contract_fail"])
             continue
